@@ -81,6 +81,7 @@ def _endings():
     add('unreadable_include', 'parse', 'FILE_ACCESS_ERROR', ['setup'])
     add('unreadable_case', 'parse', 'FILE_ACCESS_ERROR')
     add('preprocessor_fails', 'parse', 'PRE_PROCESS_ERROR')
+    add('preprocessor_killed_by_signal', 'parse', 'PRE_PROCESS_ERROR')
     add('preprocessor_cannot_start', 'parse', 'PRE_PROCESS_ERROR')
     add('preprocessor_garbage', 'parse', 'SYNTAX_ERROR')
     add('preprocessor_ok', 'exec', 'pass')
@@ -273,6 +274,11 @@ def build(seed, tier, ending, status, mode, g, atc_exit=None, sweep=False):
     elif eid == 'preprocessor_fails':
         argv_extra = ['--preprocessor', 'pp ppa']
         procs['pp'] = {'exit': g.choice([1, 2, 70]), 'stderr': 'pp failed\n', 'stdout': '[act]\n% atc\n'}
+    elif eid == 'preprocessor_killed_by_signal':
+        # Popen reports death by signal N as exit status -N: "an exit code other than 0 indicates error"
+        argv_extra = ['--preprocessor', 'pp ppa']
+        procs['pp'] = {'exit': g.choice([-6, -9, -11, -15]), 'stderr': g.choice(['', 'Aborted\n']),
+                       'stdout': g.choice(['[act]\n% atc\n', '@CASE@', ''])}
     elif eid == 'preprocessor_cannot_start':
         argv_extra = ['--preprocessor', 'pp']
         procs['pp'] = {'spawn_error': 'ENOENT'}
